@@ -3,7 +3,7 @@
 import json, subprocess, sys, xml.etree.ElementTree as ET, os, tempfile
 out = sys.argv[1] if len(sys.argv) > 1 else "/var/tmp/baseline.junit.xml"
 if not os.environ.get("SKIP_RUN"):
-    subprocess.run("cd /repo && /venv/bin/python -m pytest -ra -q -p no:cacheprovider --timeout=900 --continue-on-collection-errors --junitxml=%s > %s.log 2>&1" % (out, out), shell=True)
+    subprocess.run("cd " + os.environ.get("REPO_DIR", "/repo") + " && /venv/bin/python -m pytest -ra -q -p no:cacheprovider --timeout=900 --continue-on-collection-errors --junitxml=%s > %s.log 2>&1" % (out, out), shell=True)
 base = json.load(open("/root/.vp/BASELINE.json"))
 stable = set(base["stable_pass"])
 passed = set(); failed = set()
